@@ -648,6 +648,16 @@ func narrowExempt(p *Prog, cv *ssa.Convert) string {
 			}
 		}
 	}
+	// enumVal(i) under a dominating guard i < len(values) (classic counted loop over a values table)
+	for _, g := range dominatingGuards(cv.Block()) {
+		cmp, ok := g.Cond.(*ssa.BinOp)
+		if !ok || cmp.Op != token.LSS || !g.Val || stripConv(cmp.X) != stripConv(cv.X) {
+			continue
+		}
+		if call, ok := cmp.Y.(*ssa.Call); ok && builtinName(call) == "len" && valuesBounded(p, call.Call.Args[0]) {
+			return "index below len(values) of an enum values table, len(values) <= 255 by R34"
+		}
+	}
 	// enumVal(len(values)) in newEnumVal: callers guard len(values) < maxCardinality (R34)
 	if call, ok := cv.X.(*ssa.Call); ok && builtinName(call) == "len" {
 		if f, _ := fieldOf(call.Call.Args[0]); f != nil && f.Name() == "values" {
